@@ -33,7 +33,7 @@ int main(int argc, char **argv) {
                  "(warm-up, fault phase with synthetic/damaged/duplicated/reordered/stale datagrams and stalls, quiet phase with well-formed probes); "
                  "distinct = distinct event-log digest; non-trivial = the listener received at least one hostile datagram and returned to recv/poll at least once";
         e.probes = {"probe.hostile_datagram_received", "probe.quiet_probe_received", "fault.synth", "fault.field", "fault.trunc", "fault.extend",
-                    "fault.flip", "fault.stale", "fault.dup", "fault.drop", "fault.delay", "fault.stall", "ev.timer_fire", "ev.recv_truncated"};
+                    "fault.flip", "fault.field_add", "fault.ethpad", "fault.stale", "fault.dup", "fault.drop", "fault.delay", "fault.stall", "ev.timer_fire", "ev.recv_truncated"};
         e.assumptions = {"simos models Linux socket/CAN/timerfd semantics as described in DESIGN.md section 4",
                          "reads beyond the received length but inside the listener's own receive array are not flagged",
                          "socket errors, allocation failures and EINTR are not injected (outside the property)"};
